@@ -759,18 +759,32 @@ func TestHedgeRounds(t *testing.T) {
 		if sc.Cancel == "if" {
 			hb.CancelIf(func(v int, err error) bool { return err == nil && v > 0 })
 		}
-		rp := retrypolicy.Builder[int]().WithMaxRetries(sc.Rounds).HandleErrors(timeout.ErrExceeded).Build()
-		to := timeout.With[int](time.Duration(sc.LimitUs) * time.Microsecond)
 		var mu sync.Mutex
+		roundStart := map[int]time.Time{} // round -> an instant that precedes the hedge policy's start in that round
+		var early []string
+		rp := retrypolicy.Builder[int]().WithMaxRetries(sc.Rounds).HandleErrors(timeout.ErrExceeded).OnRetry(func(e failsafe.ExecutionEvent[int]) {
+			mu.Lock()
+			roundStart[e.Retries()] = time.Now()
+			mu.Unlock()
+		}).Build()
+		to := timeout.With[int](time.Duration(sc.LimitUs) * time.Microsecond)
 		produced := map[int]int{} // value -> round that produced it
 		entries := map[int]int{}
 		next := 0
 		fn := func(exec failsafe.Execution[int]) (int, error) {
+			now := time.Now()
 			round := exec.Retries()
 			mu.Lock()
 			next++
 			id := next
 			entries[round]++
+			// spacing applies afresh to every hedged execution: a hedge of a later round starts no earlier than the delay
+			// after that round began (the OnRetry listener runs before the round's hedge policy starts)
+			if t0, ok := roundStart[round]; ok && exec.IsHedge() && !exec.IsCanceled() && sc.DelayUs > 0 {
+				if d := now.Sub(t0); d < time.Duration(sc.DelayUs)*time.Microsecond {
+					early = append(early, fmt.Sprintf("a hedge of round %d entered the function %v after the round began, the hedge delay is %dus", round+1, d, sc.DelayUs))
+				}
+			}
 			mu.Unlock()
 			if round < sc.Rounds || exec.IsCanceled() {
 				// an abandoned round ends by the Timeout. (A hedge launched just before its round was abandoned can enter
@@ -813,6 +827,14 @@ func TestHedgeRounds(t *testing.T) {
 			st.Count("last_round_timed_out", 1)
 		} else if err != nil || !ok || r != sc.Rounds {
 			harness.Violation(t, "C09", test, "stale-result-from-abandoned-round", sc, "%+v: the call returned (%d,%v); only an attempt of round %d can have produced the result (values produced there: %v)", sc, v, err, sc.Rounds+1, produced)
+		}
+		mu.Lock()
+		if len(early) > 0 {
+			msg := early[0]
+			mu.Unlock()
+			harness.Violation(t, "C09", test, "hedge-before-delay", sc, "%+v: %s", sc, msg)
+		} else {
+			mu.Unlock()
 		}
 		total := 0
 		for _, n := range ent {
